@@ -7,6 +7,8 @@ C32 model: utils/watermarker.go — lock-free "done until" watermark.
   addIndex(i,δ)   slot(i).Add(δ); tryAdvance()                           (i = 0 is ignored)
   tryAdvance      loop: d := load doneUntil; L := load lastIndex; if d >= L return;
                         if load slot(d+1) > 0 return; if CAS(doneUntil, d, d+1) { notify(d+1) }
+  BeginMany(is)   for i in is: addIndex(i,+1);  setLastIndex(last of is);  tryAdvance()
+                  (= threads `count i` … followed by `publish last`; DoneMany(is) = Done(i) …)
   WaitForMark(i)  if doneUntil >= i return; lock; if doneUntil >= i {unlock; return};
                   register waiter; unlock; sleep until notified
   notify(u)       under mu: wake and drop every waiter with index <= u
@@ -56,6 +58,8 @@ inductive Kind where
   | done (i : Nat)
   | wait (i : Nat)
   | adv                        -- a bare tryAdvance() (what Begin(0) amounts to when index 0 is ignored)
+  | count (i : Nat)            -- BeginMany, one element: addIndex(i,+1)
+  | publish (i : Nat)          -- BeginMany, tail: setLastIndex(last); tryAdvance()
   deriving DecidableEq, Repr
 
 def progOf (c : WMCfg) : Kind → List Instr
@@ -65,6 +69,8 @@ def progOf (c : WMCfg) : Kind → List Instr
   | .done i => [.add i false, .advance]
   | .wait i => [.wait i]
   | .adv => [.advance]
+  | .count i => [.add i true, .advance]
+  | .publish i => [.setLast i, .advance]
 
 /-- position inside the current instruction -/
 inductive Loc where
@@ -101,6 +107,8 @@ inductive Act where
   | done (tid i : Nat)
   | wait (tid i : Nat)
   | adv (tid : Nat)
+  | count (tid i : Nat)
+  | publish (tid i : Nat)
   | run (tid : Nat)
 
 def setThr (s : St) (tid : Nat) (t : Thr) : St := { s with thr := upd s.thr tid (some t) }
@@ -110,9 +118,21 @@ def Kind.idx : Kind → Nat
   | .done i => i
   | .wait i => i
   | .adv => 0
+  | .count i => i
+  | .publish i => i
 
 def Kind.isBegin : Kind → Bool
   | .begin _ => true
+  | _ => false
+
+def Kind.isCount : Kind → Bool
+  | .count _ => true
+  | _ => false
+
+/-- the two pieces of BeginMany: outside the usage contract (the oracle only calls Begin) -/
+def Kind.isAux : Kind → Bool
+  | .count _ => true
+  | .publish _ => true
   | _ => false
 
 /-- wake every sleeping waiter whose index is <= u -/
@@ -124,9 +144,28 @@ def wake (thr : Nat → Option Thr) (u : Nat) : Nat → Option Thr := fun j =>
 /-- the stepping thread moves on to its next instruction -/
 def nextInstr (t : Thr) : Thr := { t with stage := t.stage + 1, loc := .start }
 
-/-- ghost: the first micro-step of a Begin call counts the index as begun -/
-def bumpBegun (s : St) (t : Thr) : Nat → Nat :=
-  if t.kind.isBegin ∧ t.stage = 0 then upd s.nBegun t.kind.idx (s.nBegun t.kind.idx + 1) else s.nBegun
+/-- ghost: the first micro-step of a Begin call counts the index as begun.
+(`inline`: as a 3-ary compiled function a stored `bumpBegun s t` would re-evaluate
+`s.nBegun idx + 1` on every lookup — exponential in the number of Begins.) -/
+def bumpVal (s : St) (t : Thr) : Nat :=
+  s.nBegun t.kind.idx + (if (t.kind.isBegin ∨ t.kind.isCount) ∧ t.stage = 0 then 1 else 0)
+
+/-- (used in statements only; `stepThr` spells out `upd … (bumpVal s t)` so that the compiled field
+is a partial application of `upd` with the new value already computed) -/
+def bumpBegun (s : St) (t : Thr) : Nat → Nat := upd s.nBegun t.kind.idx (bumpVal s t)
+
+theorem bumpBegun_off (s : St) (t : Thr) (h : ¬ ((t.kind.isBegin ∨ t.kind.isCount) ∧ t.stage = 0)) (j : Nat) :
+    bumpBegun s t j = s.nBegun j := by
+  unfold bumpBegun bumpVal
+  rw [if_neg h]
+  by_cases hj : j = t.kind.idx
+  · subst hj; simp
+  · rw [upd_other _ _ _ _ hj]
+
+theorem bumpBegun_on (s : St) (t : Thr) (h : (t.kind.isBegin ∨ t.kind.isCount) ∧ t.stage = 0) :
+    bumpBegun s t = upd s.nBegun t.kind.idx (s.nBegun t.kind.idx + 1) := by
+  unfold bumpBegun bumpVal
+  rw [if_pos h]
 
 def stepThr (c : WMCfg) (s : St) (tid : Nat) (t : Thr) : Option St :=
   match (progOf c t.kind)[t.stage]? with
@@ -135,13 +174,18 @@ def stepThr (c : WMCfg) (s : St) (tid : Nat) (t : Thr) : Option St :=
     match ins with
     | .setLast i =>
       some { (setThr s tid (nextInstr t)) with
-        lastIndex := if s.lastIndex < i then i else s.lastIndex, nBegun := bumpBegun s t }
+        lastIndex := if s.lastIndex < i then i else s.lastIndex, nBegun := upd s.nBegun t.kind.idx (bumpVal s t) }
     | .add i up =>
+      -- (the updated maps are bound before the `if`s: a conditional of function type is compiled
+      -- to a lambda, and the new value must not be recomputed inside it on every lookup)
+      let cnt' := upd s.cnt i (s.cnt i + (if up then 1 else -1))
+      let nc := upd s.nCounted i (s.nCounted i + 1)
+      let nd := upd s.nDoneDec i (s.nDoneDec i + 1)
       some { (setThr s tid (nextInstr t)) with
-        cnt := if i = 0 ∧ c.tracksZero = false then s.cnt else upd s.cnt i (s.cnt i + (if up then 1 else -1)),
-        nBegun := bumpBegun s t,
-        nCounted := if up then upd s.nCounted i (s.nCounted i + 1) else s.nCounted,
-        nDoneDec := if up then s.nDoneDec else upd s.nDoneDec i (s.nDoneDec i + 1) }
+        cnt := if i = 0 ∧ c.tracksZero = false then s.cnt else cnt',
+        nBegun := upd s.nBegun t.kind.idx (bumpVal s t),
+        nCounted := if up then nc else s.nCounted,
+        nDoneDec := if up then s.nDoneDec else nd }
     | .endBegin => some { (setThr s tid (nextInstr t)) with sectionBusy := false }
     | .advance =>
       match t.loc with
@@ -187,6 +231,10 @@ def step (c : WMCfg) (contract : Bool) (s : St) : Act → Option St
     if s.thr tid = none then some (setThr s tid { kind := .wait i }) else none
   | .adv tid =>
     if s.thr tid = none then some (setThr s tid { kind := .adv }) else none
+  | .count tid i =>
+    if s.thr tid = none ∧ contract = false ∧ (0 < i ∨ c.tracksZero = true) then some (setThr s tid { kind := .count i }) else none
+  | .publish tid i =>
+    if s.thr tid = none ∧ contract = false then some (setThr s tid { kind := .publish i }) else none
   | .run tid =>
     match s.thr tid with
     | some t => stepThr c s tid t
